@@ -100,7 +100,21 @@ def abort_phase(tb):
     return "other"
 
 
-def execute(cfg, seed, exact=True, forced_draws=None, scripts=None, extra_classes=()):
+def session_truth(cfg, sim):
+    """Session parameters AS CONFIGURED (what the scheduling properties are stated over): explicit keys of the session's
+    json entry win; the Session object is consulted only for what the entry leaves to defaults or inheritance."""
+    out = []
+    entries = cfg.get("simulation", {}).get("sessions", [])
+    for i, s in enumerate(sim.sessions):
+        c = entries[i] if i < len(entries) and isinstance(entries[i], dict) and "extends" not in entries[i] else {}
+        out.append([int(c.get("iterationSteps", s.iteration_steps)), bool(c.get("withOrderPlacement", s.with_order_placement)),
+                    bool(c.get("withOrderExecution", s.with_order_execution)),
+                    int(c.get("maxNormalOrders", s.max_normal_orders)), int(c.get("maxHighFrequencyOrders", s.max_high_frequency_orders)),
+                    rate_class(c.get("highFrequencySubmitRate", s.high_frequency_submission_rate)), int(s.session_start_time)])
+    return out
+
+
+def execute(cfg, seed, exact=True, forced_draws=None, scripts=None, extra_classes=(), no_logger=False):
     """Runs cfg with the probes; returns the recorded run (dict) - never raises for exceptions of the code
     under test (they are recorded as an `abort` event)."""
     rec = probes.set_recorder(probes.Recorder(exact=exact))
@@ -113,7 +127,7 @@ def execute(cfg, seed, exact=True, forced_draws=None, scripts=None, extra_classe
     out = io.StringIO()
     try:
         with contextlib.redirect_stdout(out):
-            runner = SequentialRunner(settings=settings, prng=prng, logger=probes.RecLogger(),
+            runner = SequentialRunner(settings=settings, prng=prng, logger=None if no_logger else probes.RecLogger(),
                                       simulator_class=probes.ProbeSimulator)
             for c in list(PROBE_CLASSES) + list(extra_classes):
                 runner.class_register(c)
@@ -137,9 +151,7 @@ def execute(cfg, seed, exact=True, forced_draws=None, scripts=None, extra_classe
                      acc=[[bool(a.is_market_accessible(m.market_id)) for m in sim.markets] for a in sim.agents],
                      hft=[isinstance(a, probes.HighFrequencyAgent) for a in sim.agents],
                      idx=[isinstance(m, probes.IndexMarket) for m in sim.markets],
-                     sess=[[int(s.iteration_steps), bool(s.with_order_placement), bool(s.with_order_execution),
-                            int(s.max_normal_orders), int(s.max_high_frequency_orders),
-                            rate_class(s.high_frequency_submission_rate), int(s.session_start_time)] for s in sim.sessions])
+                     sess=session_truth(cfg, sim))
             prng.active = True
             runner._run()
     except MachineryError:
@@ -159,10 +171,41 @@ def execute(cfg, seed, exact=True, forced_draws=None, scripts=None, extra_classe
     return {"cfg": cfg, "seed": seed, "exact": exact, "ev": rec.ev, "books": books, "abort": abort}
 
 
-def generate(n, seed):
+def spoof_runs(n, seed):
+    """negative scenarios of C04 at run level: some scripted agent hands the runner an order naming another agent"""
+    rng = random.Random(sub_seed(seed, "spoof-configs"))
+    runs = []
+    for i in range(n):
+        cfg = random_config(rng)
+        for g in ("N", "H"):
+            if g in cfg:
+                cfg[g]["script"] = dict(cfg[g]["script"], pSpoof=rng.choice([0.15, 0.4]), pEmpty=0.0, maxBatch=3)
+        for s in cfg["simulation"]["sessions"]:
+            s["withOrderPlacement"] = True
+            s["maxNormalOrders"] = max(2, s["maxNormalOrders"])
+        r = execute(cfg, rng.randrange(2 ** 31))
+        r["src"] = "spoof"
+        runs.append(r)
+    return runs
+
+
+def hook_calls(run):
+    """the sequence of user-hook invocations of a run, as the call keys of TraceHooks"""
+    return [[e["ev"], e["typ"], bool(e["before"]), int(e["t"]), int(e["s"] if e["typ"] == "session" else e["m"])]
+            for e in run["ev"] if e["k"] == "hook"]
+
+
+def generate(n, seed, twin=False):
+    """twin: every run with registered user hooks is executed a second time WITHOUT a logger (the default of the runner);
+    the hook invocations of the twin go into the header of the logged run (C13: hooks do not depend on a logger)."""
     rng = random.Random(sub_seed(seed, "run-configs"))
     runs = []
     for i in range(n):
         cfg = random_config(rng)
-        runs.append(execute(cfg, rng.randrange(2 ** 31)))
+        sd = rng.randrange(2 ** 31)
+        run = execute(cfg, sd)
+        if twin and any(e["k"] == "hook" for e in run["ev"]):
+            t = execute(cfg, sd, no_logger=True)
+            run["nolog"] = hook_calls(t)
+        runs.append(run)
     return runs
